@@ -183,3 +183,30 @@ Qed.
 Lemma decode_valid_replacement rest :
   decode ([239%N; 191%N; 189%N] ++ rest) = (RuneError, 3%nat).
 Proof. reflexivity. Qed.
+
+Lemma decode_nonneg bs : 0 <= fst (decode bs).
+Proof.
+  destruct bs as [|b0 r0]; [cbn; unfold RuneError; lia|].
+  unfold decode, is_cont, RuneError. assert (H0 := zb_nonneg b0).
+  destruct (Z.ltb_spec (zb b0) 128); [cbn [andb fst]; lia|].
+  destruct (Z.ltb_spec (zb b0) 194); [cbn [andb fst]; lia|].
+  destruct (Z.ltb_spec (zb b0) 224).
+  { destruct r0 as [|b1 r1]; [cbn [andb fst]; lia|]. assert (H1' := zb_nonneg b1).
+    destruct (Z.leb_spec 128 (zb b1)); destruct (Z.leb_spec (zb b1) 191); cbn [andb fst]; lia. }
+  destruct (Z.ltb_spec (zb b0) 240).
+  { destruct r0 as [|b1 [|b2 r2]]; try (cbn [andb fst]; lia).
+    assert (H1' := zb_nonneg b1). assert (H2' := zb_nonneg b2).
+    match goal with |- context [if ?c then _ else _] => destruct c eqn:Hc end; [|cbn [andb fst]; lia].
+    apply andb_true_iff in Hc as [Hc Hc3]. apply andb_true_iff in Hc as [Hc1 Hc2].
+    apply andb_true_iff in Hc3 as [Hc3 Hc4]. cbn [fst].
+    destruct (Z.eqb_spec (zb b0) 224); lia. }
+  destruct (Z.ltb_spec (zb b0) 245).
+  { destruct r0 as [|b1 [|b2 [|b3 r3]]]; try (cbn [andb fst]; lia).
+    assert (H1' := zb_nonneg b1). assert (H2' := zb_nonneg b2). assert (H3' := zb_nonneg b3).
+    match goal with |- context [if ?c then _ else _] => destruct c eqn:Hc end; [|cbn [andb fst]; lia].
+    apply andb_true_iff in Hc as [Hc Hc5]. apply andb_true_iff in Hc as [Hc Hc3].
+    apply andb_true_iff in Hc as [Hc1 Hc2].
+    apply andb_true_iff in Hc3 as [Hc3 Hc4]. apply andb_true_iff in Hc5 as [Hc5 Hc6]. cbn [fst].
+    destruct (Z.eqb_spec (zb b0) 240); lia. }
+  cbn [andb fst]; lia.
+Qed.
